@@ -970,3 +970,17 @@ def _m73():
     def __hash__(self):
         return hash((self.root, self.suffix, self.destdir, self.directory))
     bp.BasePath.__hash__ = __hash__
+
+
+@mutant('dir_rule_subst')
+def _m74():
+    from bfg9000.backends.make import writer as mw
+    _patch_source(mw, 'directory_rule', "Function('patsubst', pattern, Pattern('%'), var('@'), quoted=True)",
+                  "Function('subst', '/.dir', '', var('@'), quoted=True)")
+
+
+@mutant('depfile_target_escape_for_prereq')
+def _m75():
+    from bfg9000.builtins import find as bfind
+    _patch_source(bfind, 'write_depfile', 'out.write(i.string(roots), Syntax.dependency)',
+                  'out.write(i.string(roots), Syntax.target)')
